@@ -152,7 +152,7 @@ def run_controller(machine, fn, silent=(), rc_chips=None, n_tries=3):
     net = simnet.Net(machine.handle, scr)
     with simnet.installed(net):
         mc = simmachine.make_controller(net, n_tries=n_tries, timeout=2.0)
-        return guard(lambda: fn(mc))
+        return guard(lambda: limited(lambda: fn(mc)))
 
 
 class Runaway(BaseException):
@@ -160,26 +160,76 @@ class Runaway(BaseException):
 
 
 class Budget(object):
-    """network script that answers every datagram and stops a probe that runs away (e.g. one that walks memory
-    it was never meant to read)"""
+    """network script that answers every datagram, stops a probe that runs away (e.g. one that walks memory it was
+    never meant to read) and injects the fault planned for the current probe: ("lose1", i) = the i-th datagram of
+    the probe is lost once (the retry gets through), ("loseall", i, n) = it and its n - 1 retries are lost,
+    ("rc", i) = it is answered with an error code"""
 
     def __init__(self, limit=3000):
-        self.limit, self.left = limit, limit
+        self.limit = limit
+        self.reset()
 
-    def reset(self):
-        self.left = self.limit
+    def reset(self, plan=None):
+        self.left, self.sent, self.plan, self.hit = self.limit, 0, plan, False
 
     def __call__(self, k, data):
         self.left -= 1
         if self.left < 0:
             raise Runaway()
+        i = self.sent
+        self.sent += 1
+        if self.plan:
+            mode, at = self.plan[0], self.plan[1]
+            if mode == "lose1" and i == at or mode == "loseall" and at <= i < at + self.plan[2]:
+                self.hit = True
+                return []
+            if mode == "rc" and i == at:
+                self.hit = True
+                return [(1, ("rc", 0x87))]
         return [(1, "ok")]
 
 
+_HANGS = [0]
+RIG_STATEFUL = ["rig.machine_control.machine_controller", "rig.machine_control.common", "rig.place_and_route.utils",
+                "rig.place_and_route.machine", "rig.routing_table.utils"]
+
+
 def limited(fn, seconds=2):
-    """fn() within a CPU-time limit (a probe of these machines takes milliseconds)"""
-    with common.cpu_limit(seconds):
-        return fn()
+    """fn() within a CPU-time limit ~100x what a call on these machines takes (milliseconds); after three hangs
+    the limit drops so a broken tree does not make the run long"""
+    try:
+        with common.cpu_limit(seconds if _HANGS[0] < 3 else 0.5):
+            return fn()
+    except common.ImplHang:
+        _HANGS[0] += 1
+        raise
+
+
+def fresh_rig():
+    """a history starts with the in-scope rig modules imported afresh (module-level tables, default-argument
+    objects and class attributes are as in a new process), so the case alone is a replayable history"""
+    import importlib
+    import sys
+    for k in RIG_STATEFUL:
+        sys.modules.pop(k, None)
+    for k in RIG_STATEFUL:
+        importlib.import_module(k)
+
+
+class _Coord(int):
+    """an int subclass, as an IntEnum member is"""
+
+
+def as_kind(v, kind):
+    """the integer argument v in another kind the API accepts"""
+    if kind == "np":
+        import numpy
+        return numpy.int64(v)          # what indexing a default integer array gives
+    if kind == "bool" and v in (0, 1):
+        return bool(v)
+    if kind == "enum":
+        return _Coord(v)
+    return v
 
 
 def guard(fn):
@@ -190,7 +240,7 @@ def guard(fn):
     except Runaway:
         return {"err": "Runaway"}
     except common.ImplHang as e:
-        return {"err": "Hang (%s)" % (e,)}
+        return {"err": "DidNotReturn (%s)" % (e,)}
     except sc.SCPError:
         return {"err": "SCPError"}
     except ValueError as e:
@@ -201,6 +251,8 @@ def guard(fn):
         return {"err": "AssertionError"}
     except (KeyError, IndexError, TypeError) as e:
         return {"err": type(e).__name__}
+    except Exception as e:      # noqa: any other exception is a result to be judged, not a harness failure
+        return {"err": "Exception:" + type(e).__name__}
 
 
 # --------------------------------------------------------------------------- canonical forms
@@ -230,7 +282,7 @@ def si_json(si):
 
 def machine_json(m):
     """(canonical form of a place-and-route Machine, whether its resource dictionaries have the expected keys)"""
-    from rig.place_and_route import Cores, SDRAM, SRAM
+    from rig.place_and_route.machine import Cores, SDRAM, SRAM
     ok_shape = (set(m.chip_resources) == {Cores, SDRAM, SRAM} and
                 all(set(r) == {Cores, SDRAM, SRAM} for r in m.chip_resource_exceptions.values()))
     mj = {"width": int(m.width), "height": int(m.height),
@@ -247,7 +299,7 @@ def derived_json(si, keep=None):
     """everything the code derives from a SystemInfo (set-valued results sorted); the objects themselves are
     put into `keep` when given"""
     from rig.place_and_route.utils import build_machine, build_core_constraints
-    from rig.place_and_route import Cores
+    from rig.place_and_route.machine import Cores
     from rig.routing_table.utils import build_routing_table_target_lengths
     m = build_machine(si)
     mj, ok_shape = machine_json(m)
@@ -342,7 +394,7 @@ def mutate_result(raw, op, seed):
 
 def mutate_derived(keep, r, log):
     """the caller edits the Machine / constraints / target lengths derived from a description"""
-    from rig.place_and_route import Cores
+    from rig.place_and_route.machine import Cores
     m = keep["machine"]
     for _ in range(r.randrange(1, 4)):
         k = r.randrange(7)
@@ -704,16 +756,17 @@ def lay(req, c, variant):
     return req
 
 
-def new_controller(net, variant):
+def new_controller(net, variant, n_tries=3, timeout=2.0):
     if not variant:
-        return simmachine.make_controller(net, n_tries=3, timeout=2.0)
+        return simmachine.make_controller(net, n_tries=n_tries, timeout=timeout)
     from rig.machine_control.machine_controller import MachineController
-    return MachineController("sim", n_tries=3, timeout=2.0, structs=rig_structs(variant))
+    return MachineController("sim", n_tries=n_tries, timeout=timeout, structs=rig_structs(variant))
 
 
 # --------------------------------------------------------------------------- sessions
-SESSION_OPS = ["iobuf_bytes", "iobuf", "status", "chip_info", "diag", "p2p", "system_info", "sv", "vcpu"]
+SESSION_OPS = ["iobuf_bytes", "iobuf", "status", "chip_info", "diag", "p2p", "system_info", "sv", "vcpu", "links", "sver"]
 SESSION_FAMILIES = [["iobuf_bytes", "iobuf"], ["iobuf_bytes", "iobuf"], ["status", "vcpu"], ["chip_info", "system_info"],
+                    ["chip_info", "links"], ["sver"],
                     ["diag"], ["p2p", "system_info"], ["sv"], ["vcpu", "iobuf_bytes"]]
 SESSION_SIZES = [4, 16, 60, 64, 128, 252, 256, 1000]
 STRUCT_OPS = ["iobuf_bytes", "status", "vcpu", "sv", "p2p", "system_info"]      # probes that read struct fields
@@ -755,6 +808,7 @@ def gen_epoch(rng, coords, size, vbase, tmpl, clear):
         p2p[(0, 0)] = 1
     e["p2p"] = {"dim_w": w, "dim_h": h, "p2p": sorted([x, y, r] for (x, y), r in p2p.items())}
     e["clear"] = clear
+    e["sver"] = gen_sver(rng)        # this chip's software answers `sver` with its own name / version / buffer size
     return e
 
 
@@ -861,8 +915,21 @@ def gen_session(rng):
                 st["ctl"] = 0 if st["chip"] % len(pool) == 0 else 1
             elif "ctl" not in st and rng.random() < 0.3:
                 st["ctl"] = 1
+    # the same call repeated at once
+    if rng.random() < 0.3:
+        j = rng.randrange(len(steps))
+        steps.insert(j + 1, dict({k: v for k, v in steps[j].items() if k not in ("mutate", "fault")}, set=[], mut=None))
+    for st in steps:
+        # calling convention and kind of the integer arguments
+        st["style"] = rng.choice(["pos", "pos", "kw", "ctx"])
+        st["kind"] = rng.choice(["int", "int", "np", "bool", "enum"])
+        # the network fails once during the probe: one datagram lost (the retry gets through), a command and all its
+        # retries lost, or an error reply - and the controller is used again afterwards
+        if rng.random() < 0.12:
+            st["fault"] = [rng.choice(["lose1", "lose1", "loseall", "rc"]), rng.choice([0, 0, 1, 2, 3, rng.randrange(12)])]
     return {"kind": "session", "chips": chips, "steps": steps, "root": rng.randrange(n),
-            "buf": rng.choice([256, 256, 128, 64, 512]), "explicit_default": rng.random() < 0.5}
+            "buf": rng.choice([256, 256, 128, 64, 512]), "explicit_default": rng.random() < 0.5,
+            "n_tries": [rng.choice([1, 2, 3, 5]), rng.choice([2, 3, 4])], "timeout": rng.choice([1.0, 2.0, 5.0])}
 
 
 def gen_sver(rng):
@@ -928,7 +995,7 @@ _TAINTED = [None]      # key of the first finding that results depend on the his
 LAYOUT_OPS = ("iobuf", "status", "p2p_table", "system_info", "sv_field", "vcpu_field")
 CORE_FIELDS = ("p", "vcpu_base", "iobuf_size", "status", "sw_top", "name16", "pad", "blocks", "diag")
 SESSION_KEYS = {"iobuf": "iobuf-wrong", "iobuf_bytes": "iobuf-wrong", "status": "status-wrong",
-                "chip_info": "chip-info-wrong", "diag": "router-counters-wrong", "p2p": "system-info-wrong",
+                "chip_info": "chip-info-wrong", "links": "chip-info-wrong", "sver": "version-wrong", "diag": "router-counters-wrong", "p2p": "system-info-wrong",
                 "system_info": "system-info-wrong", "sv": "struct-field-wrong", "vcpu": "struct-field-wrong"}
 
 
@@ -941,6 +1008,14 @@ def session_spec_reqs(L, c):
             yield ("img", ci, ek, "info"), L("spec_info", **e["info"])
             yield ("img", ci, ek, "p2p"), lay(L("spec_p2p", chips=[], **e["p2p"]), c, v)
             yield ("img", ci, ek, "sv"), lay(L("spec_sv", fields=e["sv"]), c, v)
+            if "sver" in e:
+                sv = dict(e["sver"], x=ch["x"], y=ch["y"])
+                if sv["legacy"]:
+                    yield ("img", ci, ek, "sver"), L("spec_sver_legacy", **{f: sv[f] for f in (
+                        "x", "y", "pcpu", "vcpu", "buf", "date", "major", "minor", "name")})
+                else:
+                    yield ("img", ci, ek, "sver"), L("spec_sver_string", **{f: sv[f] for f in (
+                        "x", "y", "pcpu", "vcpu", "buf", "date", "name", "ma", "mi", "pa", "labels")})
 
 
 def session_image(w, ci, ek):
@@ -948,14 +1023,25 @@ def session_image(w, ci, ek):
     return im["core"]["mem"] + im["p2p"]["mem"] + im["sv"]["mem"]
 
 
+def sver_core(e):
+    """the core whose `sver` answer the epoch defines (never core 0 of a chip: the controller asks the root chip's
+    core 0 for the machine's SCP buffer size)"""
+    return e["p"] or 1
+
+
 def session_apply(m, c, w, ci, ek):
     ch = c["chips"][ci]
     xy = (ch["x"], ch["y"])
-    if ch["epochs"][ek]["clear"]:
+    e = ch["epochs"][ek]
+    if e["clear"]:
         m.mem[xy] = {}                      # re-boot: nothing of the previous life remains
+        for k in [k for k in m.sver if k[:2] == xy]:
+            del m.sver[k]
     for addr, data in session_image(w, ci, ek):
         m.poke(xy[0], xy[1], addr, bytes(data))
     m.info[xy] = w["img"][(ci, ek)]["info"]
+    if "sver" in w["img"][(ci, ek)]:
+        m.sver[xy + (sver_core(e),)] = w["img"][(ci, ek)]["sver"]
 
 
 def session_op(c, w, st, cur):
@@ -967,45 +1053,79 @@ def session_op(c, w, st, cur):
 
 
 def session_probe(mc, c, w, st, cur):
-    """(canonical result, the object the probe returned)"""
+    """(canonical result, the object the probe returned, canonicaliser); the call is made in the step's calling
+    convention (positional / keyword / contextual arguments) with its integer arguments in the step's kind"""
     ch = c["chips"][st["chip"]]
-    x, y = ch["x"], ch["y"]
-    p = ch["epochs"][cur[st["chip"]]]["p"]
+    kind, style = st.get("kind", "int"), st.get("style", "pos")
+    x, y = as_kind(ch["x"], kind), as_kind(ch["y"], kind)
+    p = as_kind(ch["epochs"][cur[st["chip"]]]["p"], kind)
     op = session_op(c, w, st, cur)
+
+    def call(name, lead, with_p, **extra):
+        """mc.<name>(*lead, [p], x, y) in the documented order"""
+        f = getattr(mc, name)
+        if style == "kw":
+            kw = dict(x=x, y=y, **extra)
+            if with_p:
+                kw[with_p] = p
+            return f(*lead, **kw)
+        if style == "ctx":
+            kw = dict(x=x, y=y)
+            if with_p == "p":
+                kw["p"] = p
+                with mc(**kw):
+                    return f(*lead, **extra)
+            with mc(**kw):
+                return f(*lead, **dict(extra, **({with_p: p} if with_p else {})))
+        return None
+
     if op == "iobuf_bytes":
-        raw = mc.get_iobuf_bytes(p, x, y)
-        return list(raw), raw
+        raw = call("get_iobuf_bytes", (), "p") if style != "pos" else mc.get_iobuf_bytes(p, x, y)
+        return list(raw), raw, list
     if op == "iobuf":
-        raw = mc.get_iobuf(p, x, y)
-        return list(raw.encode("utf-8")), raw
+        raw = call("get_iobuf", (), "p") if style != "pos" else mc.get_iobuf(p, x, y)
+        return list(raw.encode("utf-8")), raw, lambda r: list(r.encode("utf-8"))
     if op == "status":
-        raw = mc.get_processor_status(p, x, y)
-        return status_json(raw), raw
+        raw = call("get_processor_status", (), "p") if style != "pos" else mc.get_processor_status(p, x, y)
+        return status_json(raw), raw, status_json
     if op == "chip_info":
-        raw = mc.get_chip_info(x, y)
-        return ci_json(raw), raw
+        raw = call("get_chip_info", (), None) if style != "pos" else mc.get_chip_info(x, y)
+        return ci_json(raw), raw, ci_json
+    if op == "links":
+        raw = call("get_working_links", (), None) if style != "pos" else mc.get_working_links(x, y)
+        return sorted(int(l) for l in raw), raw, lambda r: sorted(int(l) for l in r)
     if op == "diag":
-        raw = mc.get_router_diagnostics(x, y)
-        return [int(v) for v in raw], raw
+        raw = call("get_router_diagnostics", (), None) if style != "pos" else mc.get_router_diagnostics(x, y)
+        return [int(v) for v in raw], raw, lambda r: [int(v) for v in r]
     if op == "p2p":
-        raw = mc.get_p2p_routing_table(x, y)
-        return sorted([int(k[0]), int(k[1]), int(v)] for k, v in raw.items()), raw
+        raw = call("get_p2p_routing_table", (), None) if style != "pos" else mc.get_p2p_routing_table(x, y)
+        canon = lambda r: sorted([int(k[0]), int(k[1]), int(v)] for k, v in r.items())  # noqa: E731
+        return canon(raw), raw, canon
     if op == "system_info":
-        raw = mc.get_system_info(x, y)
-        return si_json(raw), raw
+        raw = call("get_system_info", (), None) if style != "pos" else mc.get_system_info(x, y)
+        return si_json(raw), raw, si_json
+    if op == "sver":
+        p = as_kind(sver_core(ch["epochs"][cur[st["chip"]]]), kind)
+        raw = call("get_software_version", (), "processor") if style != "pos" else mc.get_software_version(x, y, p)
+        return coreinfo_json(raw), raw, coreinfo_json
     if op == "sv":
-        raw = mc.read_struct_field("sv", st["name"], x, y)
-        return int(raw), raw
+        # the optional core number of read_struct_field gets a non-default value in the keyword / context styles
+        raw = (call("read_struct_field", ("sv", st["name"]), "p") if style != "pos"
+               else mc.read_struct_field("sv", st["name"], x, y))
+        return int(raw), raw, int
     if op == "vcpu":
-        raw = mc.read_vcpu_struct_field(st["name"], x, y, p)
-        return int(raw), raw
+        raw = (call("read_vcpu_struct_field", (st["name"],), "p") if style != "pos"
+               else mc.read_vcpu_struct_field(st["name"], x, y, p))
+        return int(raw), raw, int
     raise KeyError(op)
 
 
 def run_session(c, w, only=None):
     """the session on ONE controller (steps with "ctl": 1 on a second one), the caller editing the returned object
-    after steps that say so; or, with `only`, the machine brought to the state of step `only` and that single probe
-    made by a fresh controller.  Returns results, the epoch of every chip at each step, and the edits made"""
+    after steps that say so, the network failing during steps that say so; or, with `only`, the machine brought to
+    the state of step `only` and that single probe made by a fresh controller.  Returns results, the epoch of every
+    chip at each step, and the edits made; w["kept_changed"] lists results that changed after they were returned"""
+    fresh_rig()
     root = c["chips"][c["root"]]
     m = ProbeMachine(root=(root["x"], root["y"]), buffer_size=c["buf"])
     cur = [0] * len(c["chips"])
@@ -1013,7 +1133,8 @@ def run_session(c, w, only=None):
         session_apply(m, c, w, ci, 0)
     budget = Budget()
     net = simnet.Net(m.handle, budget)
-    out, snaps, edits = [], [], []
+    out, snaps, edits, kept, faults = [], [], [], [], []
+    tries = c.get("n_tries", [3, 3])
     with simnet.installed(net):
         mcs, ctl_layout, restructs = {}, {}, [0]
         for k, st in enumerate(c["steps"]):
@@ -1022,30 +1143,42 @@ def run_session(c, w, only=None):
                 cur[ci] = ek
             snaps.append(list(cur))
             edits.append([])
+            faults.append(False)
             if only is None or only == k:
                 ctl = st.get("ctl", 0) if only is None else "fresh"
                 v = c["chips"][st["chip"]]["epochs"][cur[st["chip"]]].get("layout", 0)
+                n_tries = tries[ctl] if ctl in (0, 1) else 3
                 if ctl not in mcs:
-                    mcs[ctl] = new_controller(net, v)          # MachineController(..., structs=<that layout>)
+                    mcs[ctl] = new_controller(net, v, n_tries, c.get("timeout", 2.0))   # structs=<that layout>
                     ctl_layout[ctl] = v
                 elif ctl_layout[ctl] != v:
                     mcs[ctl].structs = rig_structs(v)          # what boot() does with the booted image's definitions
                     ctl_layout[ctl] = v
                     restructs[0] += 1
-                budget.reset()
+                plan = st.get("fault") if only is None else None
+                if plan and plan[0] == "loseall":
+                    plan = plan[:2] + [n_tries]
+                budget.reset(plan)
                 res = guard(lambda: limited(lambda: session_probe(mcs[ctl], c, w, st, cur)))
+                faults[-1] = budget.hit
                 if "ok" in res:
-                    canon, raw = res["ok"]
+                    canon, raw, fn = res["ok"]
                     res = {"ok": canon}
                     if only is None and st.get("mutate") is not None:
                         edits[-1] = mutate_result(raw, session_op(c, w, st, cur), st["mutate"])
+                    elif only is None:
+                        kept.append((k, raw, fn, canon))       # the caller keeps what it was given
                 out.append(res)
             else:
                 out.append(None)
             if only == k:
                 break
+        if only is None:
+            # everything the caller kept (and did not edit itself) is still what it was when it was returned
+            w["kept_changed"] = [(k, before, fn(raw)) for k, raw, fn, before in kept if fn(raw) != before]
     if only is None:
         w["restructs"] = restructs[0]
+        w["faults"] = faults
     return out, snaps, edits
 
 
@@ -1071,6 +1204,11 @@ def session_reqs(L, c, w, k, cur, impl):
         model, oracle, okey = L("diag", mem=mem), L("core_ok", got_diag=got, **core), "diag"
     elif op == "chip_info":
         model, oracle = L("dec_info", **im["info"]), L("info_ok", state=e["info"], got=got)
+    elif op == "links":
+        model, oracle, okey = L("dec_info", **im["info"]), L("spec_view", **e["info"]), ("links", got)
+    elif op == "sver":
+        model = L("dec_sver", **im["sver"])
+        oracle = L("sver_ok", got=got, **{f: v for f, v in dict(e["sver"], x=ch["x"], y=ch["y"]).items() if f != "kind"})
     elif op == "p2p":
         model, oracle = L("p2p_table", mem=mem), L("p2p_ok", state=dict(e["p2p"], chips=[]), got=got)
     elif op == "system_info":
@@ -1128,6 +1266,8 @@ def session_layouts(c, w, k):
 def session_model_norm(op, model):
     if "ok" not in model:
         return model
+    if op == "links":
+        return {"ok": model["ok"]["links"]}
     if op == "p2p":
         return {"ok": sorted(model["ok"])}
     if op == "system_info":
@@ -1136,6 +1276,8 @@ def session_model_norm(op, model):
 
 
 def session_verdict(r, okey):
+    if isinstance(okey, tuple):             # the Lean specification's view of the chip, field okey[0], is okey[1]
+        return r is not None and r[okey[0]] == okey[1]
     return r is not None and (r[okey] if okey else r) is True
 
 
@@ -1148,10 +1290,20 @@ def judge_session(ctx, c, w):
         op = session_op(c, w, st, cur)
         impl = w["impl"][k]
         ctx.traces += 1
-        ctx.tag("session_op_" + op, "session_mut_%s" % st["mut"])
+        ctx.tag("session_op_" + op, "session_mut_%s" % st["mut"], "session_style_" + st.get("style", "pos"),
+                "session_kind_" + st.get("kind", "int"))
         probed.add(st["chip"])
-        cmp(ctx, "session." + op, impl, session_model_norm(op, w[("sess", k, "model")]), c)
         ok = "ok" in impl and session_verdict(w.get(("sess", k, "oracle")), w[("sess", k, "okey")])
+        if w["faults"][k]:
+            mode = st["fault"][0]
+            if mode == "lose1" and c.get("n_tries", [3, 3])[st.get("ctl", 0)] > 1:
+                ctx.tag("session_fault_lose1_retried")         # the retry gets through: judged like any probe
+            else:
+                # a command failed for good: the probe may raise SCPError (get_system_info instead treats a chip
+                # that does not answer as dead); only the probes AFTER it are judged
+                ctx.tag("session_fault_%s_%s" % (mode, "right" if ok else impl.get("err", "other-result")))
+                continue
+        cmp(ctx, "session." + op, impl, session_model_norm(op, w[("sess", k, "model")]), c)
         if not ok and first_bad is None:
             first_bad = k
     ctx.tag("session_steps_%d" % len(c["steps"]), "session_chips_%d" % len(probed))
@@ -1162,7 +1314,20 @@ def judge_session(ctx, c, w):
         ctx.tag("session_two_controllers")
     nlay = len(set(session_layouts(c, w, len(c["steps"]) - 1)))
     ctx.tag("session_layouts_%d" % nlay, "session_restruct" if w.get("restructs") else "session_no_restruct")
-    if first_bad is not None:
+    if w["kept_changed"] and first_bad is None:
+        k, before, after = w["kept_changed"][0]
+        ctx.violation(_TAINTED[0] or "kept-result-changed",
+                      "the result of step %d (%s), kept by the caller and never edited by it, was %.300r when it was "
+                      "returned and is %.300r after the later probes of the session" % (
+                          k, session_op(c, w, c["steps"][k], w["snaps"][k]), before, after), c)
+    if first_bad is not None and str(w["impl"][first_bad].get("err", "")).startswith("DidNotReturn") and not _TAINTED[0]:
+        k = first_bad
+        st = c["steps"][k]
+        ctx.violation("did-not-return", "step %d: %s on chip (%d, %d) did not return: %s (the Lean model of the probe "
+                      "is a total function and returns %.200r)" % (
+                          k, session_op(c, w, st, w["snaps"][k]), c["chips"][st["chip"]]["x"],
+                          c["chips"][st["chip"]]["y"], w["impl"][k]["err"], w[("sess", k, "model")]), c)
+    elif first_bad is not None:
         k = first_bad
         st = c["steps"][k]
         cur = w["snaps"][k]
